@@ -62,6 +62,7 @@ import (
 
 func TestMain(m *testing.M) {
 	evid.Tests(
+		evid.Spec{Name: "FuzzMatch", Kind: "fuzz", Thorough: 120, ThoroughOnly: true, QuickShards: 1, ThoroughShards: 1},
 		evid.Spec{Name: "TestReplay", Kind: "plain", QuickShards: 1, ThoroughShards: 1},
 		evid.Spec{Name: "TestKnownFindings", Kind: "plain", QuickShards: 1, ThoroughShards: 1},
 		evid.Spec{Name: "TestExhaustiveSmall", Kind: "plain", QuickShards: 16, ThoroughShards: 16, TimeoutS: 3000},
